@@ -15,6 +15,10 @@ CLAIMS = {
    text="Lean theorems over raw byte names and unbounded histories: the recogniser accepts exactly <name>.~N~ (N < 2^64), the chosen number exceeds all and the name is fresh, an overwrite preserves the old content under it, no existing backup is ever modified, auto iff a backup exists, history induction, and the old content exists under one of two names at every prefix of the step list (kill points). Tied to /repo by running histories of real invocations (non-UTF-8, prefix-related, backup-looking names; numbers near 2^64) against the model's runHistory and by SIGKILL before/after each mutating call.",
    note="Lean kernel, standard axioms only; rename atomicity and SIGKILL semantics assumed; directory modelled as a finite map of regular files; model tied by sampling.",
    tech="Lean 4 theorems (round-trip, induction over histories, prefix invariant) + history differential + kill enumeration", ref='§3 C09'),
+ 'C05': dict(
+   text="Lean theorems quantified over EVERY kernel oracle that merely never moves more than asked or past EOF: whatever short counts it returns at whichever call, whether copy_file_range answers ENOSYS/EXDEV/EPERM (also mid-block), read answers EINTR, on the Linux or the fallback backend, a loop that reports success has moved exactly the requested range (else it fails; a short pwrite is a failure); errno classification of copy_file_range and FICLONE stated outright; FIEMAP unsupported => whole file. Tied to /repo by a ptrace supervisor that lowers length arguments (genuine short transfers) and injects errnos at calls derived from each case's own trace, replaying every file's calls through the compiled model with the kernel's answers, plus libfs linked without the Linux backend.",
+   note="Lean kernel, standard axioms only; KernSafe checked on every traced answer; std::io::Write::write_all modelled as one call; the no-Linux-backend build is exercised at the libfs level (libxcp's own dependency re-enables the Linux backend by feature unification).",
+   tech="Lean 4 theorems (∀ kernel oracle, induction on fuel) + fault/clamp enumeration with trace-replay correspondence", ref='§3 C05'),
 }
 PENDING = "check not built yet in this session (planned: Lean model + theorems + correspondence, see DESIGN.md §3); not claimed until it runs"
 ALL = [f'C{i:02d}' for i in range(1, 21)]
